@@ -239,9 +239,9 @@ Lemma task_ok_other g g' t' k' :
 Proof.
   unfold task_ok. intros [H1 H2] Hcu Hnx Hcm Hl. split.
   { destruct (t_conn k'); [rewrite Hcu|]; exact H1. }
-  destruct (t_pc k'); auto.
+  destruct (t_pc k'); auto;
+    try (rewrite Hnx; destruct H2 as [A B]; split; now auto).
   - destruct H2 as (A & B & C & D). destruct (Hl _ C) as (E1 & E2 & E3). rewrite E1. auto.
-  - rewrite Hnx. destruct H2 as [A B]. split; auto.
   - destruct H2 as (A & B & C & D). destruct (Hl _ C) as (E1 & E2 & E3). rewrite E1. auto.
   - destruct H2 as (A & C). destruct (Hl _ C) as (E1 & E2 & E3). auto.
 Qed.
